@@ -210,6 +210,35 @@ def p_assigned(x):
     return None
 
 
+def p_fields_safe(x):
+    """what the description and license fields render holds no empty or whitespace-only line after the first"""
+    a, b = x
+    for cls, mk in ((debcon.DescriptionField, lambda: debcon.DescriptionField(a, b)), (dcopy.LicenseField, lambda: dcopy.LicenseField(name=a, text=b))):
+        try:
+            out = mk().dumps()
+        except Exception as e:  # noqa
+            return '%s(%r, %r).dumps() raises %s' % (cls.__name__, a, b, type(e).__name__)
+        for l in out.split('\n')[1:]:
+            if not l.strip():
+                return '%s(%r, %r) renders %r: a line after the first is empty or white space only' % (cls.__name__, a, b, out)
+    return None
+
+
+def p_decode_pure(v):
+    """from_formatted_lines leaves the list it is handed as it was, and decodes it the same a second time"""
+    lines = v.splitlines()
+    if not lines:
+        return None
+    keep = list(lines)
+    a = debcon.from_formatted_lines(lines)
+    if lines != keep:
+        return 'from_formatted_lines changed the list it was handed: %r became %r' % (keep, lines)
+    b = debcon.from_formatted_lines(lines)
+    if a != b:
+        return 'decoding the same lines twice gives %r then %r' % (a, b)
+    return None
+
+
 def p_line_iterables(t):
     """as_formatted_lines takes the lines as any iterable"""
     lines = t.splitlines()
@@ -289,6 +318,8 @@ def run(ctx):
     fails += [('instance', x, w) for x, w in ctx.prop('prop:from_value(instance)', texts[::3], p_instance)]
     fails += [('field_cycles', x, w) for x, w in ctx.prop('prop:field-cycles', texts, p_field_cycles)]
     fails += [('line_iterables', x, w) for x, w in ctx.prop('prop:lines-as-any-iterable', texts[::5], p_line_iterables)]
+    fails += [('fields_safe', x, w) for x, w in ctx.prop('prop:field-renderings-hold-no-blank-line', pairs + [(a, '\n' + b) for a, b in pairs[:500]] + [(a, ' \n\n' + b) for a, b in pairs[:300]], p_fields_safe)]
+    fails += [('decode_pure', x, w) for x, w in ctx.prop('prop:decoding-leaves-its-argument', texts[::4], p_decode_pure)]
     pairs_a = [(texts[i], texts[(i * 7 + 3) % len(texts)]) for i in range(0, len(texts), max(1, len(texts) // ctx.n(4000, 40000)))]
     fails += [('assigned', x, w) for x, w in ctx.prop('prop:rendering-follows-assignment', pairs_a, p_assigned)]
     # texts beyond 1 MiB in which an empty line (or a line end) sits exactly on every multiple of 4096 characters
